@@ -14,17 +14,20 @@ LEVEL_TEXT = ('static analysis: (D1) every public estimator of cnvlib/descriptiv
               'NaN for no data and the value / the default for a single value; (D2) comparisons against a float-epsilon tolerance that decide '
               "equality are two-sided (abs(...)), and the weighted median's tie branch averages the two values around the cumulative weight it "
               'tested; (D3) every smoother path that pads by `wing` (through check_inputs / _pad_array) returns a [wing:-wing] slice of the '
-              'padded result (one value per input; the weighted Kaiser path, outside the property, is reported as information); (D4) a dimension-'
-              'analysis style type system interpreted over the estimator bodies, all paths: under x -> x + c every value is LOC (moves by c) or '
-              'INV (unchanged) and under x -> s*x has a degree; each location estimator must return LOC, each scale estimator INV of degree 1 and'
-              ' provably non-negative (sign domain: abs / even power / sqrt / sorted difference / ordered percentile difference) ; a multiplicity'
-              ' rule rides on the same interpretation: an array that went through np.unique / drop_duplicates may feed extremes, lengths and '
-              "element picks but not a mean, median, percentile, sum, density or estimator (ties would count once) (the two biweights' max(c*mad,"
-              " epsilon) mixes a degree-1 value with an absolute constant: that is the property's own exception and leaves only their scale "
-              'typing undecided); (D5) the same bodies interpreted on the uniform vector (k, k, k) with exact arithmetic in k: every scale '
-              'estimator evaluates to 0 and every location estimator to k, and a library call whose precondition constant data violates '
-              '(gaussian_kde needs a non-singular covariance) is a finding. Does not decide numerical values on general data, agreement with '
-              'published formulas, range / finiteness of smoother outputs.')
+              'padded result (one value per input; the weighted Kaiser path, outside the property, is reported as information); (D3c) the '
+              'convolution kernels, evaluated exactly on literal arrays, return a constant signal unchanged for uniform and non-uniform weights '
+              'and 1-3 passes; (D4) a dimension-analysis style type system interpreted over the estimator bodies, all paths: under x -> x + c '
+              'every value is LOC (moves by c) or INV (unchanged) and under x -> s*x has a degree; each location estimator must return LOC, each '
+              'scale estimator INV of degree 1 and provably non-negative (sign domain: abs / even power / sqrt / sorted difference / ordered '
+              'percentile difference) ; a multiplicity rule rides on the same interpretation: an array that went through np.unique / '
+              'drop_duplicates may feed extremes, lengths and element picks but not a mean, median, percentile, sum, density or estimator (ties '
+              "would count once) (the two biweights' max(c*mad, epsilon) mixes a degree-1 value with an absolute constant: that is the property's"
+              ' own exception and leaves only their scale typing undecided); (D5) the same bodies interpreted on the uniform vector (k, k, k) '
+              'with exact arithmetic in k: every scale estimator evaluates to 0 and every location estimator to k, and a library call whose '
+              "precondition constant data violates (gaussian_kde needs a non-singular covariance) is a finding; the wrappers' contract (NaN "
+              'stripped, no data -> NaN, one value -> the value / 0) is evaluated the same way; (D5b) on exactly symmetric data the biweight '
+              'midvariance is the documented 1.4826 * MAD. Does not decide numerical values on general data, agreement with published formulas, '
+              'range / finiteness of smoother outputs.')
 TECHNIQUE = "decorator-contract and tolerance lints; structured-dominance pad/unpad pairing; abstract interpretation with a translation/scale type domain and a uniform-vector domain"
 
 LOCATION = {"biweight_location": "on_array", "modal_location": "on_array", "weighted_median": "on_weighted_array"}
